@@ -27,6 +27,91 @@ def design_check(scratch):
     return dict(states=states, transitions=trans, neg_guards=3)
 
 
+def build_cases(scratch, rnd, tier):
+    """TLC-generated scripts concretised on every method shape that carries them."""
+    g = C.tlc(scratch, "Proxy_MC.tla", "Proxy_Gen.cfg", workers=1, timeout=600, tag="pgen")
+    seen, scripts = set(), []
+    for s in C.printed(g["out"], "SCRIPT"):
+        k = json.dumps(s, sort_keys=True)
+        if k not in seen:
+            seen.add(k)
+            scripts.append(s)
+    if not scripts:
+        raise C.Infra("Proxy_Gen produced no scripts:\n" + g["out"][-1500:])
+    cases = []
+    for s in scripts:
+        if s["mode"] == "lockstep":
+            # ping-pong on bidi; the codes a context error would carry are always among those tried
+            for code in ([0] if s["failK"] == 0 else [1, 4, rnd.choice([2, 3, 5, 7, 8, 9, 10, 11, 13, 14, 15, 16])]):
+                c = dict(s)
+                c.update(shape="bidi", code=code, det=rnd.choice([0, 1, 2]), wait=False)
+                cases.append(c)
+            continue
+        for shape in ["unary", "cstream", "sstream", "bidi"]:
+            cs = shape in ("cstream", "bidi")
+            ss = shape in ("sstream", "bidi")
+            if not cs and s["n"] != 1:
+                continue
+            if not cs and s["readN"] == 0:
+                continue            # generated code reads the single request before the handler runs
+            if not ss and s["replyJ"] != 1:
+                continue            # exactly one reply
+            if shape == "unary" and s["failAt"] not in ("never", "before"):
+                continue
+            if shape == "unary" and s["readN"] != 1:
+                continue
+            # a failing script is run with the two codes a context error would carry (Canceled, DeadlineExceeded)
+            # and with seeded others; a succeeding one once
+            codes = [0] if s["failAt"] == "never" else [1, 4] + [rnd.choice([2, 3, 5, 6, 7, 8, 9, 10, 11, 12, 13, 14, 15, 16]) for _ in range(1 if tier == "quick" else 4)]
+            for code in codes:
+                c = dict(s)
+                c.update(shape=shape, code=code, det=rnd.choice([0, 1, 2]), wait=False)
+                cases.append(c)
+            if shape == "bidi" and s["readN"] == 0 and s["replyJ"] >= 1 and s["failAt"] != "before":
+                c = dict(s)
+                c.update(shape=shape, code=5, det=0, wait=True)   # the backend speaks first, the client waits for it
+                cases.append(c)
+    for i, c in enumerate(cases):
+        c["id"] = i + 1
+    return cases
+
+
+def intercept_violations(prop, tier, scratch, harness, seed):
+    """C18 on the proxy path: the scripts of Proxy.tla through a front with interceptors installed; only the
+    InterceptProxied formulas are judged here (the transcripts are C10's business)."""
+    rnd = random.Random(seed + 18)
+    cases = build_cases(scratch, rnd, tier)
+    cpath, trace = scratch.path("pcases.jsonl"), scratch.path("ptrace.ndjson")
+    with open(cpath, "w") as f:
+        for c in cases:
+            f.write(json.dumps(c) + "\n")
+    p, _ = C.run([harness, "proxy", "-cases", cpath, "-out", trace, "-seed", str(seed)], timeout=3000)
+    if p.returncode != 0:
+        raise C.Infra("proxy driver failed:\n" + p.stdout[-3000:])
+    n = sum(1 for _ in open(trace))
+    rep = C.validate_shards(scratch, "ProxyTrace.tla", "ProxyTrace.cfg", [(trace, n)], timeout=1800)[0]
+    lines = open(trace).read().splitlines()
+    by_id = {c["id"]: c for c in cases}
+    out = {}
+    for case, line, formula in rep["failed"]:
+        if formula == "DirectModel":
+            raise C.Infra("a direct call did not behave as the model of the backend/grpc-go says: %s" % lines[line - 1][:600])
+        if not formula.startswith("InterceptProxied"):
+            continue
+        ev = json.loads(lines[line - 1])
+        s = ev["s"]
+        v = ev["http"] if formula.endswith("HTTP") else ev["proxied"]
+        key = (formula, s["shape"], s["mode"])
+        if key in out:
+            out[key]["more"] += 1
+            continue
+        out[key] = dict(property=prop, formula=formula, seed=seed, cases=[by_id[case]], observed=ev, more=0, replay_driver="proxy",
+                        signature=dict(module="Proxy", formula=formula, shape=s["shape"]),
+                        what="%s: proxied %s %s n=%d -> interceptor calls=%d saw recv=%d send=%d; backend got %s, client replies %s" % (
+                            formula, s["shape"], s["mode"], s["n"], v["icalls"], v["irecv"], v["isend"], v["bgot"], v["replies"]))
+    return out, rep["stat"].get("calls", 0)
+
+
 def run(prop, tier, replay=None):
     t0 = time.time()
     seed = C.seed()
@@ -41,50 +126,7 @@ def run(prop, tier, replay=None):
             design = dict(states=0, transitions=0, neg_guards=0)
         else:
             design = design_check(scratch)
-            g = C.tlc(scratch, "Proxy_MC.tla", "Proxy_Gen.cfg", workers=1, timeout=600, tag="pgen")
-            seen, scripts = set(), []
-            for s in C.printed(g["out"], "SCRIPT"):
-                k = json.dumps(s, sort_keys=True)
-                if k not in seen:
-                    seen.add(k)
-                    scripts.append(s)
-            if not scripts:
-                raise C.Infra("Proxy_Gen produced no scripts:\n" + g["out"][-1500:])
-            cases = []
-            for s in scripts:
-                if s["mode"] == "lockstep":
-                    # ping-pong on bidi; the codes a context error would carry are always among those tried
-                    for code in ([0] if s["failK"] == 0 else [1, 4, rnd.choice([2, 3, 5, 7, 8, 9, 10, 11, 13, 14, 15, 16])]):
-                        c = dict(s)
-                        c.update(shape="bidi", code=code, det=rnd.choice([0, 1, 2]), wait=False)
-                        cases.append(c)
-                    continue
-                for shape in ["unary", "cstream", "sstream", "bidi"]:
-                    cs = shape in ("cstream", "bidi")
-                    ss = shape in ("sstream", "bidi")
-                    if not cs and s["n"] != 1:
-                        continue
-                    if not cs and s["readN"] == 0:
-                        continue            # generated code reads the single request before the handler runs
-                    if not ss and s["replyJ"] != 1:
-                        continue            # exactly one reply
-                    if shape == "unary" and s["failAt"] not in ("never", "before"):
-                        continue
-                    if shape == "unary" and s["readN"] != 1:
-                        continue
-                    # a failing script is run with the two codes a context error would carry (Canceled, DeadlineExceeded)
-                    # and with seeded others; a succeeding one once
-                    codes = [0] if s["failAt"] == "never" else [1, 4] + [rnd.choice([2, 3, 5, 6, 7, 8, 9, 10, 11, 12, 13, 14, 15, 16]) for _ in range(1 if tier == "quick" else 4)]
-                    for code in codes:
-                        c = dict(s)
-                        c.update(shape=shape, code=code, det=rnd.choice([0, 1, 2]), wait=False)
-                        cases.append(c)
-                    if shape == "bidi" and s["readN"] == 0 and s["replyJ"] >= 1 and s["failAt"] != "before":
-                        c = dict(s)
-                        c.update(shape=shape, code=5, det=0, wait=True)   # the backend speaks first, the client waits for it
-                        cases.append(c)
-            for i, c in enumerate(cases):
-                c["id"] = i + 1
+            cases = build_cases(scratch, rnd, tier)
         with open(cpath, "w") as f:
             for c in cases:
                 f.write(json.dumps(c) + "\n")
